@@ -33,6 +33,8 @@ var basicSrc = map[string]string{
 	"int": "int", "int8": "int8", "int64": "int64", "uint64": "uint64", "bool": "bool", "string": "string",
 	"myint": "MyInt", "mystr": "MyStr", "time": "time.Time", "bytes": "[]byte", "any": "any", "iface": "ZzIface",
 	"ifacelit": "interface{ ZzFoo() string }", "func": "func(int) int", "chan": "chan int",
+	// the predeclared interface `error` (a *types.Named of the universe scope: its object has NO package) and directional channels
+	"err": "error", "chanr": "<-chan int", "chans": "chan<- int",
 	"money": "dep.Money", "pt": "dep.Pt",
 	// types that reach the declaration through an ALIASED import (`stdtime "time"`, `dp "scratch/dep"`)
 	"dur": "stdtime.Duration", "amoney": "dp.Money",
@@ -101,7 +103,7 @@ func (t *Ty) Uses(set map[string]bool) {
 // type parameter and the alias `any` are not nilable; the basic type string is).
 func (t *Ty) Nilable() bool {
 	switch t.K {
-	case "ptr", "slice", "bytes", "map", "chan", "func", "ifacelit", "string":
+	case "ptr", "slice", "bytes", "map", "chan", "chanr", "chans", "func", "ifacelit", "string":
 		return true
 	case "emb":
 		return strings.HasPrefix(t.Name, "*")
@@ -124,7 +126,7 @@ func (t *Ty) inst(st *Struct) *Ty {
 // IsIface: the instantiated static type is an interface type.
 func (t *Ty) IsIface(st *Struct) bool {
 	k := t.inst(st).K
-	return k == "any" || k == "iface" || k == "ifacelit"
+	return k == "any" || k == "iface" || k == "ifacelit" || k == "err"
 }
 
 // GenExpr is a Go expression of type func(*zzRng) <Src(sub)>.
@@ -171,6 +173,12 @@ func (t *Ty) GenExpr(st *Struct) string {
 		return "zzFuncII"
 	case "chan":
 		return "zzChanI"
+	case "chanr":
+		return "func(r *zzRng) <-chan int { return zzChanI(r) }"
+	case "chans":
+		return "func(r *zzRng) chan<- int { return zzChanI(r) }"
+	case "err":
+		return "zzErrV"
 	case "ptr":
 		return "zzPtrOf(" + t.Elem.GenExpr(st) + ")"
 	case "slice":
@@ -207,6 +215,8 @@ func (t *Ty) GenExpr(st *Struct) string {
 // ---------------------------------------------------------------------------------- struct declarations
 
 type Field struct {
+	// JoinNext: this field and the next one are declared together (`a, b T`): same type, no tags, neither embedded
+	JoinNext bool
 	Name     string
 	Ty       *Ty
 	Tag      string
@@ -374,10 +384,17 @@ func (s *Struct) Decl() string {
 	var sb strings.Builder
 	sb.WriteString(s.Ann.Comment())
 	sb.WriteString("type " + s.Name + s.TypeParamDecl() + " struct {\n")
-	for _, f := range s.Fields {
+	for i, f := range s.Fields {
+		if i > 0 && s.Fields[i-1].JoinNext {
+			continue // already written as part of `a, b T`
+		}
 		sb.WriteString("\t")
 		if !f.Embedded {
-			sb.WriteString(f.Name + " ")
+			names := f.Name
+			for j := i; s.Fields[j].JoinNext; j++ {
+				names += ", " + s.Fields[j+1].Name
+			}
+			sb.WriteString(names + " ")
 		}
 		sb.WriteString(f.Ty.Src(nil))
 		if f.Tag != "" {
